@@ -21,6 +21,7 @@ import (
 	"runtime"
 	"runtime/debug"
 	"strings"
+	"sync/atomic"
 	"syscall"
 	"unsafe"
 )
@@ -123,8 +124,8 @@ var (
 	prefix    []int
 	choices   [4096]int
 	nalts     [4096]int
-	costs     [4096]int  // deviation cost already spent BEFORE this decision
-	devAlt    [4096]bool // would a non-zero alternative here cost a deviation?
+	costs     [4096]int // deviation cost already spent BEFORE this decision
+	freeAlt   [4096]int // alternatives with index < freeAlt cost nothing, the others one deviation
 	nchoices  int
 	spent     int
 	trace     [8192]string
@@ -136,14 +137,31 @@ var (
 	deadlocked       bool
 	steps            int
 	maxSteps         = 20000
+	timerJumps       bool
+	freeSwitches     bool
 )
 
 var abortSentinel = new(int)
 
 //go:norace
+//go:noinline
+func loadWord(w *uint32) uint32 { return *w }
+
+var spinIters = 3000
+
+// futexWait: spin briefly (the common hand-offs thread -> controller -> same thread complete
+// within a microsecond), then sleep in the kernel.
+//
+//go:norace
 func futexWait(w *uint32) {
+	for i := 0; i < spinIters; i++ {
+		if loadWord(w) == 1 {
+			*w = 0
+			return
+		}
+	}
 	for {
-		if *w == 1 {
+		if loadWord(w) == 1 {
 			*w = 0
 			return
 		}
@@ -353,7 +371,7 @@ func Choose(n int, label string) int {
 	if !active || aborting || n <= 1 {
 		return 0
 	}
-	return decide(n, true, label)
+	return decide(n, 1, label)
 }
 
 //go:norace
@@ -385,17 +403,23 @@ func GoNamed(name string, f func()) int {
 	*s = slot{}
 	s.state, s.kind, s.name, s.label = stParked, OpStart, name, "start"
 	go threadMain(id, f)
-	me := &slots[cur]
-	me.kind, me.label = OpYield, "go"
-	park(me)
 	return id
 }
+
+// epochSync orders executions for the race detector: every thread's exit (release) happens
+// before the start of the next execution's harness thread (acquire). Executions are independent
+// runs; without this edge package-level state re-initialised by the harness would be reported as
+// racing with the previous execution's threads.
+var epochSync uint64
 
 func threadMain(id int, f func()) {
 	waitFirst(id)
 	defer threadExit(id)
 	if abortedAt(id) {
 		return
+	}
+	if id == 0 {
+		atomic.LoadUint64(&epochSync)
 	}
 	f()
 }
@@ -410,6 +434,7 @@ func threadExit(id int) {
 	if r := recover(); r != nil && r != interface{}(abortSentinel) {
 		recordPanic(id, r, debug.Stack())
 	}
+	atomic.AddUint64(&epochSync, 1)
 	finish(id)
 }
 
@@ -575,7 +600,7 @@ func timeBlocked(i int) (int64, bool) {
 // decide records a decision with n alternatives and returns the chosen one.
 //
 //go:norace
-func decide(n int, deviates bool, label string) int {
+func decide(n int, free int, label string) int {
 	if nchoices >= len(choices) {
 		fatal("execution too long (decision log full)")
 	}
@@ -586,9 +611,9 @@ func decide(n int, deviates bool, label string) int {
 			fatal(fmt.Sprintf("replay divergence at decision %d: choice %d of %d (%s)", nchoices, c, n, label))
 		}
 	}
-	choices[nchoices], nalts[nchoices], costs[nchoices], devAlt[nchoices] = c, n, spent, deviates
+	choices[nchoices], nalts[nchoices], costs[nchoices], freeAlt[nchoices] = c, n, spent, free
 	nchoices++
-	if c != 0 && deviates {
+	if c >= free {
 		spent++
 	}
 	if keepTrace && ntrace < len(trace) {
@@ -630,7 +655,7 @@ func grant(i int) {
 		} else if n == 1 {
 			s.result = ready[0]
 		} else {
-			s.result = ready[decide(n, true, "select-case")]
+			s.result = ready[decide(n, 1, "select-case")]
 		}
 	case OpTimed:
 		if s.q.N > 0 || s.q.Closed {
@@ -680,13 +705,21 @@ func runOne(body func()) {
 		n := 0
 		for {
 			n = 0
-			// canonical order: the thread that just ran first (if still enabled), then ascending ids
-			if last >= 0 && enabled(last, false) {
+			// canonical order (= the default scheduler): threads that have not started yet, oldest first
+			// (a new goroutine runs at its parent's next scheduling point, as with the runtime's
+			// runnext slot); then the thread that just ran if it is still enabled; then ascending ids
+			for i := 0; i < nslots; i++ {
+				if slots[i].state == stParked && slots[i].kind == OpStart {
+					en[n] = i
+					n++
+				}
+			}
+			if last >= 0 && slots[last].kind != OpStart && enabled(last, false) {
 				en[n] = last
 				n++
 			}
 			for i := 0; i < nslots; i++ {
-				if i != last && enabled(i, false) {
+				if i != last && slots[i].kind != OpStart && enabled(i, false) {
 					en[n] = i
 					n++
 				}
@@ -726,10 +759,33 @@ func runOne(body func()) {
 			Fail("deadlock", "no thread can run:"+desc)
 			break
 		}
+		// timer alternatives: a thread blocked on virtual time may be run "early" by jumping the clock
+		// to its wake-up time while other threads are still runnable (they were descheduled that long);
+		// always a deviation
+		// cost model: the default scheduler keeps running the current thread while it is enabled and
+		// otherwise switches to the lowest-numbered enabled thread; ANY other choice is one deviation
+		// (with FreeSwitches the alternatives at a forced switch are free: classic preemption bounding)
+		free := 1
+		if freeSwitches && !(last >= 0 && en[0] == last) {
+			free = n
+		}
+		var jump [MaxThreads]int64
+		if timerJumps {
+			for i := 0; i < nslots; i++ {
+				if w, ok := timeBlocked(i); ok {
+					jump[n] = w
+					en[n] = i
+					n++
+				}
+			}
+		}
 		pick := en[0]
 		if n > 1 {
-			preempt := last >= 0 && en[0] == last
-			pick = en[decide(n, preempt, "thread")]
+			k := decide(n, free, "thread")
+			pick = en[k]
+			if jump[k] > now {
+				now = jump[k]
+			}
 		}
 		last = pick
 		grant(pick)
@@ -752,11 +808,13 @@ func runOne(body func()) {
 
 // Config of an exploration.
 type Config struct {
-	Bound     int             // max deviations
-	Prefix    []int           // explore only the subtree under this choice prefix
-	MaxExec   int             // 0 = unlimited
-	OnExec    func(r *Result) // called after every execution
-	KeepTrace bool
+	Bound        int             // max deviations
+	TimerJumps   bool            // let a timer fire while other threads are still runnable (costs a deviation)
+	FreeSwitches bool            // do not charge a deviation for the choice of the next thread when the current one blocks
+	Prefix       []int           // explore only the subtree under this choice prefix
+	MaxExec      int             // 0 = unlimited
+	OnExec       func(r *Result) // called after every execution
+	KeepTrace    bool
 }
 
 // Result of one execution.
@@ -785,6 +843,8 @@ func Explore(cfg Config, body func()) Stats {
 	var st Stats
 	st.Complete = true
 	keepTrace = cfg.KeepTrace
+	timerJumps = cfg.TimerJumps
+	freeSwitches = cfg.FreeSwitches
 	prefix = append([]int{}, cfg.Prefix...)
 	base := len(cfg.Prefix)
 	for {
@@ -810,7 +870,7 @@ func Explore(cfg Config, body func()) Stats {
 		for i := nchoices - 1; i >= base; i-- {
 			if choices[i]+1 < nalts[i] {
 				cost := costs[i]
-				if devAlt[i] {
+				if choices[i]+1 >= freeAlt[i] {
 					cost++
 				}
 				if cost <= cfg.Bound {
